@@ -72,6 +72,8 @@ def corpus_for(prop: str):
     for p in sorted(glob.glob(os.path.join(root, "corpus", f"{prop}-*.json"))):
         c = json.load(open(p))
         c["ranks"] = {int(k): v for k, v in c["ranks"].items()}
+        if "test_ranks" in c:
+            c["test_ranks"] = {int(k): v for k, v in c["test_ranks"].items()}
         out.append(c)
     return out
 
